@@ -38,6 +38,7 @@ type Contract struct {
 	Ensures  []*Clause
 	Invs     []*Clause
 	Decs     []*Clause
+	Prefers  []*Clause
 	Lets     map[string]*Let
 	LetOrder []string
 	Modifies []string
@@ -108,7 +109,7 @@ func newSpecs() *Specs {
 
 var clauseKW = map[string]bool{
 	"requires": true, "ensures": true, "modifies": true, "let": true, "invariant": true,
-	"decreases": true, "assumed": true, "returns": true, "refines": true, "verify": true, "opt": true, "loopmodifies": true,
+	"decreases": true, "prefer": true, "assumed": true, "returns": true, "refines": true, "verify": true, "opt": true, "loopmodifies": true,
 }
 
 type rawLine struct {
@@ -544,7 +545,7 @@ func (sp *Specs) parseClause(c *Contract, it rawLine) error {
 		}
 		c.Lets[name] = &Let{name, e}
 		c.LetOrder = append(c.LetOrder, name)
-	case "requires", "ensures", "invariant", "decreases":
+	case "requires", "ensures", "invariant", "decreases", "prefer":
 		e, err := parseExpr(body)
 		if err != nil {
 			return fmt.Errorf("%s: %v", where, err)
@@ -559,6 +560,8 @@ func (sp *Specs) parseClause(c *Contract, it rawLine) error {
 			c.Invs = append(c.Invs, cl)
 		case "decreases":
 			c.Decs = append(c.Decs, cl)
+		case "prefer":
+			c.Prefers = append(c.Prefers, cl)
 		}
 	default:
 		return fmt.Errorf("%s: unknown clause %q", where, kw)
